@@ -557,6 +557,14 @@ def h_concatenate(ip, st, a, kw, node):
 
 
 HANDLERS['numpy.concatenate'] = h_concatenate
+def h_hypot(ip, st, a, kw, node):
+    """hypot(x, y) = sqrt(x**2 + y**2)"""
+    r = lift(lambda x, y: (P(x) ** 2 + P(y) ** 2).pow(Fraction(1, 2)), a[0], a[1])
+    return r if r is not None else app('hypot', P(a[0]), P(a[1]))
+
+
+HANDLERS['numpy.hypot'] = h_hypot
+HANDLERS['math.hypot'] = h_hypot
 HANDLERS['numpy.where'] = h_where
 HANDLERS['numpy.flatnonzero'] = h_flatnonzero
 HANDLERS['numpy.einsum'] = h_einsum
